@@ -470,6 +470,14 @@ func (e *Entity) Commit(repo repository.ClockedRepo) error {
 		return errors.Wrapf(err, "can't commit a %s with invalid data", e.Definition.Typename)
 	}
 
+	// A pack only stores the id of its author: the reader resolves it, and verifies the signature
+	// with its keys, from what is stored in the repository.
+	for _, op := range e.staging {
+		if op.Author().NeedCommit() {
+			return fmt.Errorf("can't commit a %s: the author identity %s has to be committed first", e.Definition.Typename, op.Author().Id().Human())
+		}
+	}
+
 	for len(e.staging) > 0 {
 		var author identity.Interface
 		var toCommit []Operation
